@@ -281,6 +281,8 @@ class Ops:
                 return ("bin", NEG[a[1]], a[2], a[3])
         if op == "Neg" and a[0] == "int":
             return I(wrap(-a[1], a[2]), a[2])
+        if op == "PtrMetadata" and a[0] == "ref" and a[1][0] == "array":
+            return I(len(a[1][1]), "usize")          # the length of a slice with known elements
         return ("un", op, a)
 
     def bin(self, op, a, b):
@@ -439,7 +441,7 @@ BBASSIGN = {
 class SymExec:
     def __init__(self, facts, body, cgen=None, tgen=None, max_paths=20000, inline=None,
                  opaque=None, max_inline_blocks=20, max_depth=4, params=None, entry_store=None, raw=False, count_next=False, peel=False, record_assigns=False, unroll=0, rename=None,
-                 unroll_const=0):
+                 unroll_const=0, auto_unroll=False):
         self.facts = facts
         self.ops = Ops(facts)
         self.body = body
@@ -455,6 +457,7 @@ class SymExec:
         self._loopw = {}
         self.params = params
         self.unroll_const = unroll_const      # loops over constant arrays of at most this many elements are executed element by element
+        self.auto_unroll = auto_unroll        # do so for the entry function too when that makes it a straight line (see const_loop_fn)
         self.entry_store = entry_store
         self.nevents = 0
         self.raw = raw
@@ -741,7 +744,7 @@ class SymExec:
             return False
         loops, _ = self.loops_of(b)
         if loops and not self.unroll:
-            # a small function whose loops all run over a constant array of one or two elements (`Color::ALL.iter()
+            # a small function whose loops all run over a constant array of a few elements (`Color::ALL.iter()
             # .fold(..)`) is a straight line once those are executed element by element
             return self.const_loop_fn(name)
         # no closure-typed generics
@@ -755,7 +758,7 @@ class SymExec:
             ok = False
             if not any("&mut" in b.locals[i]["ty"] for i in range(1, b.argc + 1)):
                 try:
-                    sub = SymExec(self.facts, b, max_paths=64, max_depth=2, unroll_const=2, opaque=self.opaque_pred)
+                    sub = SymExec(self.facts, b, max_paths=64, max_depth=2, unroll_const=8, opaque=self.opaque_pred)
                     ps = sub.run()
                     ok = bool(ps) and all(p.end == "return" and not p.pre_loop for p in ps)
                 except Exception:
@@ -777,6 +780,8 @@ class SymExec:
         st.nhv = 0
         st.pre_loop = {}
         f = Frame(self.body, 0, self.cgen, self.tgen)
+        if self.auto_unroll and not self.unroll and not self.unroll_const and self.loops_of(self.body)[0] and self.const_loop_fn(self.body.key):
+            f.uc = 8
         st.frames = [f]
         b = self.body
         for i in range(1, b.argc + 1):
@@ -957,7 +962,10 @@ class SymExec:
             if root[0] == "L" and isinstance(val, tuple) and val and val[0] not in ("int", "ptr"):
                 ty = fr.body.locals[root[2]]["ty"]
                 if not ty.startswith("&") and "?" not in ty:
-                    self.types.setdefault(val, ty)
+                    if ty in (fr.body.j.get("generics") or ()):
+                        ty = fr.tgen.get(ty)        # a type parameter: what it stands for in this frame, if known
+                    if ty:
+                        self.types.setdefault(val, ty)
         else:
             base = st.store.get(root)
             if base is None:
@@ -1111,6 +1119,9 @@ class SymExec:
                 n = self.variant_count(rv.get("of"))
                 if n:
                     self.dn[d] = n
+                    if rv.get("of") in self.facts.adts and self.types.get(d[1]) not in self.facts.adts:
+                        # the place read has this enum type (a value that travelled through a generic helper keeps it)
+                        self.types[d[1]] = rv["of"]
             return d
         if k == "agg":
             ops_ = tuple(self.operand(st, fr, x) for x in rv["ops"])
@@ -1595,6 +1606,10 @@ class SymExec:
                 args = (args[0], ("tuple", tuple(args[1:])))
         if "fn" not in callee:
             fv = self.operand(st, fr, callee["indirect"])
+            if fv[0] == "fn":
+                # a call through a function pointer whose value is a known function item
+                callee = {"fn": fv[1], "targs": list(fv[2]), "res": fv[1], "rargs": list(fv[2])}
+        if "fn" not in callee:
             val = ("callind", fv, args)
             name, targs = "<indirect>", ()
         else:
@@ -1614,7 +1629,7 @@ class SymExec:
                 body = self.facts.bodies[name]
                 nf = Frame(body, st.nfid, self.sub_cgen(fr, body, targs), self.sub_tgen(fr, body, targs))
                 if not self.unroll and self.loops_of(body)[0] and self.const_loop_fn(name):
-                    nf.uc = 2            # a constant-array loop, executed element by element
+                    nf.uc = 8            # a constant-array loop, executed element by element
                 st.nfid += 1
                 nf.ret_dest = t["dest"]
                 nf.ret_target = t["t"]
